@@ -44,7 +44,7 @@ static int enabled_ops(op_t *o, int max) {
         mod_t *m = &MD[s]; int have = handle(s) != NULL;
         if ((P.groups & G_REG) && (CX.exists || (P.groups & G_CTX)) && (!m->present ? (m->extra == 0) : (P.groups & G_ILLEGAL) != 0)) {
             for (int e = 0; e < 3; e++) if (P.evals & (1u << e)) for (int sr = 1; sr >= (P.refuse_start ? 0 : 1); sr--)
-                for (int f = 0; f < 7; f++) if (P.flagset & (1u << f)) { if (m->present && (e || !sr || (f && f != 1))) continue; if (m->present && m->extra) continue; EMIT(O_REG, s, e * 2 + sr, f); }
+                for (int f = 0; f < 8; f++) if (P.flagset & (1u << f)) { if (m->present && (e || !sr || (f && f != 1 && f < 7))) continue; if (m->present && m->extra) continue; EMIT(O_REG, s, e * 2 + sr, f); }
         }
         if (!have) continue;
         int st = m->st, ill = (P.groups & G_ILLEGAL) != 0;
@@ -101,6 +101,7 @@ static int enabled_ops(op_t *o, int max) {
                 if (idx >= 0 || ill) EMIT(O_SRC_DEREG, s, kd * 16 + key);
             }
             if (P.groups & G_BADPARAM) EMIT(O_SRC_REG, s, kd * 16 + 15, 0);
+            if ((P.groups & G_BADPARAM) && kd == K_FD && st == S_RUNNING) EMIT(O_SRC_REG, s, kd * 16 + 14, 0);      /* a descriptor the poll set refuses: rejected at once on a RUNNING module */
         }
         if ((P.groups & G_BUCKET)) for (int b = 0; b < NTBCFG; b++) if (TBCFG[b].rate != m->tb_rate || TBCFG[b].burst != m->tb_burst) EMIT(O_BUCKET, s, b);
         if (P.groups & G_STASH) for (int k = 0; k < 5; k++) if (st == S_RUNNING || (ill && k == 0)) EMIT(O_UNSTASH, s, k);
@@ -174,7 +175,7 @@ static void fmt_op(op_t op, char *b, size_t cap) {
     case O_BATCH_SIZE: snprintf(b, cap, "set_batch_size(%s,%zu)", A, BSZ[op.b & 3]); break;
     case O_BATCH_TMO: snprintf(b, cap, "set_batch_timeout(%s,%luns)", A, (unsigned long)TMO[op.b % 3]); break;
     case O_UNSTASH: snprintf(b, cap, "unstash(%s,%zu)", A, UNST[op.b % 5]); break;
-    case O_SRC_REG: snprintf(b, cap, "src_register(%s,%s#%d%s%s%s%s)", A, KN[(op.b >> 4) % NKIND], op.b & 15, (op.d & 1) ? ",AUTOCLOSE" : "", (op.d & 2) ? ",ONESHOT" : "", (op.d & 4) ? ",DUP" : "", (op.d & 8) ? ",AUTOFREE" : ""); break;
+    case O_SRC_REG: if ((op.b & 15) == 14) { snprintf(b, cap, "src_register(%s,fd of a regular file)", A); break; } snprintf(b, cap, "src_register(%s,%s#%d%s%s%s%s)", A, KN[(op.b >> 4) % NKIND], op.b & 15, (op.d & 1) ? ",AUTOCLOSE" : "", (op.d & 2) ? ",ONESHOT" : "", (op.d & 4) ? ",DUP" : "", (op.d & 8) ? ",AUTOFREE" : ""); break;
     case O_SRC_DEREG: snprintf(b, cap, "src_deregister(%s,%s#%d)", A, KN[(op.b >> 4) % NKIND], op.b & 15); break;
     case O_BUCKET: snprintf(b, cap, "set_tokenbucket(%s,rate=%d,burst=%d)", A, TBCFG[op.b % NTBCFG].rate, TBCFG[op.b % NTBCFG].burst); break;
     case O_ARM: snprintf(b, cap, "arm(%s.%s: %s %d)", A, CBN[(op.b >> 5) & 3], AN[(op.b & 31) < A_MAX ? (op.b & 31) : 0], op.d); break;
